@@ -475,6 +475,16 @@ def mk_array_const(name, rank, dtype):
     return z3.Array(name, *dom, _elem_sort(dtype))
 
 
+def _to_int_cell(v):
+    """value stored into an integer array: NumPy casts on assignment, truncating a real value toward zero"""
+    if isinstance(v, Cx):
+        v = v.re
+    if sort_of(v) in ("int", "bool"):
+        return z3int(v)
+    r = z3real(_num(v))
+    return z3.If(r >= 0, z3.ToInt(r), -z3.ToInt(-r))
+
+
 class SymArr:
     """numpy.ndarray.  dtype in {'int','real','cx','bool'}.  Either owns `re` (and `im`) array terms or is a
     view (`base`, `imap`) onto another SymArr, as basic slicing gives in NumPy."""
@@ -521,9 +531,7 @@ class SymArr:
             self.re = z3.Store(self.re, *idx, z3real(v.re))
             self.im = z3.Store(self.im, *idx, z3real(v.im))
         elif self.dtype == "int":
-            if sort_of(v) not in ("int", "bool"):
-                raise Unsupported("store of non-integer into int array")
-            self.re = z3.Store(self.re, *idx, z3int(v))
+            self.re = z3.Store(self.re, *idx, _to_int_cell(v))
         elif self.dtype == "bool":
             self.re = z3.Store(self.re, *idx, z3bool(v))
         else:
@@ -551,7 +559,7 @@ class SymArr:
             self.re = canon_lambda(xs, z3real(new.re))
             self.im = canon_lambda(xs, z3real(new.im))
         elif self.dtype == "int":
-            self.re = canon_lambda(xs, z3int(new))
+            self.re = canon_lambda(xs, _to_int_cell(new))
         else:
             if isinstance(new, Cx):
                 new = new.re
